@@ -27,15 +27,15 @@ theorem C09_defaults_nonneg : ∀ r ∈ Gen.paramTable, r.ok = true → 0 ≤ r.
   decide
 
 /-- (c) passing a type's defaults explicitly changes nothing -/
-theorem alnParamInit_eq (bt : Nat) (t : Int) (g e x : Int) :
-    alnParamInit bt t g e x =
+theorem alnParamInitCore_eq (bt : Nat) (t : Int) (g e x : Int) :
+    alnParamInitCore bt t g e x =
       match lookupRow bt t with
       | some r => if r.ok then some
           { gpo := if 0 ≤ g then g else r.gpo, gpe := if 0 ≤ e then e else r.gpe,
             tgpe := if 0 ≤ x then x else r.tgpe, mat := r.mat }
         else none
       | none => none := by
-  unfold alnParamInit
+  unfold alnParamInitCore
   cases hr : lookupRow bt t with
   | none => rfl
   | some r =>
@@ -60,6 +60,45 @@ theorem lookupRow_mem {bt : Nat} {t : Int} {r : Gen.ParamRow} (h : lookupRow bt 
   unfold lookupRow at h
   exact List.mem_of_find?_eq_some h
 
+/-- the bound `aln_param_init` puts on the penalties in use (x1000); regenerated from the source -/
+def capK : Int := 1000000 * 1000
+
+theorem capOK_iff (p : PSet Int) :
+    capOK (fun v c => decide (v ≤ (c : Int) * 1000)) p = true ↔ p.gpo ≤ capK ∧ p.gpe ≤ capK ∧ p.tgpe ≤ capK := by
+  simp [capOK, Gen.penaltyCaps, capK, and_assoc]
+
+/-- every default passes the bound, so the bound only ever rejects explicit overrides -/
+theorem C09_defaults_within_cap : ∀ r ∈ Gen.paramTable, r.ok = true → r.gpo ≤ capK ∧ r.gpe ≤ capK ∧ r.tgpe ≤ capK := by
+  decide
+
+/-- closed form of the whole function -/
+theorem alnParamInit_eq (bt : Nat) (t : Int) (g e x : Int) :
+    alnParamInit bt t g e x =
+      match lookupRow bt t with
+      | some r => if r.ok then
+          (let p : PSet Int := { gpo := if 0 ≤ g then g else r.gpo, gpe := if 0 ≤ e then e else r.gpe,
+                                 tgpe := if 0 ≤ x then x else r.tgpe, mat := r.mat }
+           if p.gpo ≤ capK ∧ p.gpe ≤ capK ∧ p.tgpe ≤ capK then some p else none)
+        else none
+      | none => none := by
+  unfold alnParamInit
+  rw [alnParamInitCore_eq]
+  cases hr : lookupRow bt t with
+  | none => rfl
+  | some r =>
+    by_cases hok : r.ok = true
+    case neg => simp [hok]
+    case pos =>
+      simp only [hok, if_true, Option.bind_some]
+      by_cases hc : capOK (fun v c => decide (v ≤ (c : Int) * 1000))
+          ({ gpo := if 0 ≤ g then g else r.gpo, gpe := if 0 ≤ e then e else r.gpe,
+             tgpe := if 0 ≤ x then x else r.tgpe, mat := r.mat } : PSet Int) = true
+      · have := (capOK_iff _).1 hc
+        simp [hc, this]
+      · have hn : ¬ _ := fun h => hc ((capOK_iff _).2 h)
+        simp only [Bool.not_eq_true] at hc
+        simp [hc, hn]
+
 theorem C09_explicit_default_noop (bt : Nat) (t : Int) (p : PSet Int)
     (h : alnParamInit bt t (-1) (-1) (-1) = some p) :
     alnParamInit bt t p.gpo p.gpe p.tgpe = some p := by
@@ -68,20 +107,19 @@ theorem C09_explicit_default_noop (bt : Nat) (t : Int) (p : PSet Int)
   | none => simp [hr] at h
   | some r =>
     simp only [hr] at h ⊢
-    cases hok : r.ok with
-    | false => simp [hok] at h
-    | true =>
-      simp only [hok, if_true] at h ⊢
+    by_cases hok : r.ok = true
+    case neg => simp [hok] at h
+    case pos =>
       have hnn := C09_defaults_nonneg r (lookupRow_mem hr) hok
+      have hcap := C09_defaults_within_cap r (lookupRow_mem hr) hok
       have hp : p = { gpo := r.gpo, gpe := r.gpe, tgpe := r.tgpe, mat := r.mat } := by
-        have := Option.some.inj h
-        simp at this
-        exact this.symm
+        simp [hok, hcap] at h
+        exact h.symm
       subst hp
-      simp [hnn.1, hnn.2.1, hnn.2.2]
+      simp [hok, hnn, hcap]
 
-/-- (b') each of the three can be set on its own, end to end -/
-theorem C09_single_override (bt : Nat) (t : Int) (p : PSet Int) (v : Int) (hv : 0 ≤ v)
+/-- (b') each of the three can be set on its own, end to end (any value between 0 and the bound) -/
+theorem C09_single_override (bt : Nat) (t : Int) (p : PSet Int) (v : Int) (hv : 0 ≤ v) (hc : v ≤ capK)
     (h : alnParamInit bt t (-1) (-1) (-1) = some p) :
     alnParamInit bt t v (-1) (-1) = some { p with gpo := v } ∧
     alnParamInit bt t (-1) v (-1) = some { p with gpe := v } ∧
@@ -92,24 +130,50 @@ theorem C09_single_override (bt : Nat) (t : Int) (p : PSet Int) (v : Int) (hv : 
   | none => simp [hr] at h
   | some r =>
     simp only [hr] at h ⊢
-    cases hok : r.ok with
-    | false => simp [hok] at h
-    | true =>
-      simp only [hok, if_true] at h ⊢
+    by_cases hok : r.ok = true
+    case neg => simp [hok] at h
+    case pos =>
+      have hcap := C09_defaults_within_cap r (lookupRow_mem hr) hok
       have hp : p = { gpo := r.gpo, gpe := r.gpe, tgpe := r.tgpe, mat := r.mat } := by
-        have := Option.some.inj h
-        simp at this
-        exact this.symm
+        simp [hok, hcap] at h
+        exact h.symm
       subst hp
-      simp [hv]
+      simp [hok, hv, hc, hcap]
 
-/-- acceptance does not depend on the overrides -/
-theorem C09_accept_indep (bt : Nat) (t : Int) (g e x : Int) :
+/-- acceptance does not depend on overrides that respect the bound -/
+theorem C09_accept_indep (bt : Nat) (t : Int) (g e x : Int) (hg : g ≤ capK) (he : e ≤ capK) (hx : x ≤ capK) :
     (alnParamInit bt t g e x).isSome = (alnParamInit bt t (-1) (-1) (-1)).isSome := by
   simp only [alnParamInit_eq]
-  cases lookupRow bt t with
+  cases hr : lookupRow bt t with
   | none => rfl
-  | some r => by_cases hok : r.ok = true <;> simp [hok]
+  | some r =>
+    by_cases hok : r.ok = true
+    case neg => simp [hok]
+    case pos =>
+      have hcap := C09_defaults_within_cap r (lookupRow_mem hr) hok
+      have h1 : (if 0 ≤ g then g else r.gpo) ≤ capK := by split <;> simp_all
+      have h2 : (if 0 ≤ e then e else r.gpe) ≤ capK := by split <;> simp_all
+      have h3 : (if 0 ≤ x then x else r.tgpe) ≤ capK := by split <;> simp_all
+      simp [hok, hcap, h1, h2, h3]
+
+/-- an override above the bound is rejected (the overflow guard of the DP's -FLT_MAX sentinel) -/
+theorem C09_over_cap_rejected (bt : Nat) (t : Int) (g e x : Int) (h : capK < g ∨ capK < e ∨ capK < x) :
+    alnParamInit bt t g e x = none := by
+  rw [alnParamInit_eq]
+  cases hr : lookupRow bt t with
+  | none => rfl
+  | some r =>
+    by_cases hok : r.ok = true
+    case neg => simp [hok]
+    case pos =>
+      have hk : (0 : Int) ≤ capK := by decide
+      rcases h with h | h | h
+      · have : 0 ≤ g := by omega
+        simp [hok, this]; intro; omega
+      · have : 0 ≤ e := by omega
+        simp [hok, this]; intro _ _; omega
+      · have : 0 ≤ x := by omega
+        simp [hok, this]; intro _ _; omega
 
 def matOf (bt : Nat) (t : Int) : Option (List (List Int)) :=
   (alnParamInit bt t (-1) (-1) (-1)).bind fun p => Gen.matrices[p.mat]?
@@ -174,7 +238,7 @@ theorem C09_mismatch_rejected :
   have hn : alnParamInit 2 t (-1) (-1) (-1) = alnParamInit 2 (normType t) (-1) (-1) (-1) := by
     have : normType (normType t) = normType t := by
       unfold normType; split <;> simp_all
-    simp only [alnParamInit, lookupRow, this]
+    simp only [alnParamInit, alnParamInitCore, lookupRow, this]
   rw [hn]
   apply h6
   unfold normType
